@@ -116,6 +116,53 @@ def _z3key(cl, e):
         return f"<{type(ex).__name__}>"
 
 
+def _deep_eq(a, b, where="e"):
+    """structural equality under the library's OWN equality of non-expression arguments (sorts, rounding modes, ints, strings): the
+    first difference as text, or None.  Floats are compared by bit pattern (NaN != NaN under ==)."""
+    import struct
+
+    import claripy
+
+    if isinstance(a, claripy.ast.Base) != isinstance(b, claripy.ast.Base):
+        return f"{where}: {type(a).__name__} vs {type(b).__name__}"
+    if isinstance(a, claripy.ast.Base):
+        if a.op != b.op or len(a.args) != len(b.args) or getattr(a, "length", None) != getattr(b, "length", None):
+            return f"{where}: {a.op}/{len(a.args)} vs {b.op}/{len(b.args)}"
+        for i, (x, y) in enumerate(zip(a.args, b.args)):
+            d = _deep_eq(x, y, f"{where}.args[{i}]")
+            if d:
+                return d
+        return None
+    if isinstance(a, float) and isinstance(b, float):
+        return None if struct.pack("<d", a) == struct.pack("<d", b) or (a != a and b != b) else f"{where}: {a!r} vs {b!r}"
+    if isinstance(a, (tuple, list)) and isinstance(b, (tuple, list)) and len(a) == len(b):
+        for i, (x, y) in enumerate(zip(a, b)):
+            d = _deep_eq(x, y, f"{where}[{i}]")
+            if d:
+                return d
+        return None
+    return None if (a == b) is True else f"{where}: {a!r} == {b!r} is not True ({type(a).__name__})"
+
+
+_MODEL = {"kx": 5, "ky": 250, "kb": True, "kf": 1.5, "kg": -0.0, "kt": "a.b", "kq": 0x3FF8000000000000, "ks": 2, "kt8": 3}
+
+
+def _concrete_value(cl, e):
+    """the value of e under a fixed assignment of its variables, computed by the library's own concrete evaluation (leaf replacement +
+    folding, as the model cache does); printed, so that it can be compared across processes.  Floats by bit pattern."""
+    import struct
+
+    from claripy.frontend.mixin.model_cache_mixin import ModelCache
+
+    try:
+        v = ModelCache(dict(_MODEL)).eval_ast(e)
+    except Exception as ex:  # noqa: BLE001
+        return f"<{type(ex).__name__}>"
+    if isinstance(v, float):
+        return "nan" if v != v else struct.pack(">d", v).hex()
+    return repr(v)
+
+
 def _child(mode, family, path, same_seed=False):
     """runs in the producer / consumer process"""
     import claripy
@@ -124,6 +171,8 @@ def _child(mode, family, path, same_seed=False):
         pool = build_pool(claripy, family)
         with open(path, "wb") as f:
             pickle.dump([e for _, e in pool], f, -1)
+        with open(path + ".values", "w") as f:
+            json.dump([_concrete_value(claripy, e) for _, e in pool], f)
         print(json.dumps({"ok": True, "n": len(pool)}))
         return
     if "Elim" not in globals():
@@ -132,9 +181,15 @@ def _child(mode, family, path, same_seed=False):
         data = f.read()
     first = pickle.loads(data)                 # nothing of the pool is alive in this process yet
     keys1 = [repr(deep_key(e)) for e in first]
+    with open(path + ".values") as f:
+        produced_values = json.load(f)
+    values1 = [_concrete_value(claripy, e) for e in first]   # evaluated before anything else is built in this process
     pool = build_pool(claripy, family)
     second = pickle.loads(data)                # now everything is alive
     out = []
+    for (lab, _), v0, v1 in zip(pool, produced_values, values1):
+        if v0 != v1:
+            out.append(f"{lab}: under the assignment {_MODEL} the original evaluates (concretely, in its process) to {v0}, the unpickled expression to {v1}")
     for (lab, mine), a, k1, b in zip(pool, first, keys1, second):
         km = repr(deep_key(mine))
         if k1 != km:
@@ -143,6 +198,8 @@ def _child(mode, family, path, same_seed=False):
             out.append(f"{lab}: a second unpickling in the same process returned another object than the first, live one: {b!r:.80}")
         elif _z3key(claripy, a) != _z3key(claripy, mine):
             out.append(f"{lab}: translates to a different Z3 term")
+        elif _deep_eq(a, mine):
+            out.append(f"{lab}: the unpickled expression is not structurally equal (under the library's own equality of its arguments) to the one built here: {_deep_eq(a, mine)}")
         elif same_seed and a is not mine and len(a.annotations) <= 1:
             # with the same hash seed (and no annotation set whose iteration order could differ) the structural hash is reproducible:
             # the unpickled expression must be hash-consed with the one built here
